@@ -110,10 +110,14 @@ class SimSocket:
             raise SimHang(f"{self.recv_calls} recv calls")
         if n <= 0:
             return b""
+        waitall = bool(flags & _real_socket.MSG_WAITALL) and self.timeout is None
         while True:
+            if waitall and len(self.buf) < n and not self.eof:
+                s.block(lambda: len(self.buf) >= n or self.eof or self.closed, None, what="recv-waitall")
+                continue
             if self.buf:
                 k = min(n, len(self.buf))
-                k = self.net.short_read(self, k)
+                k = k if waitall else self.net.short_read(self, k)
                 out = bytes(self.buf[:k])
                 del self.buf[:k]
                 self.consumed += k
@@ -205,7 +209,11 @@ class Net:
     def recv_cap(self, sock):
         return self._recv_cap
 
+    socket_class = None
+
     def new_socket(self, *a, **k):
+        if self.socket_class is not None:
+            return self.socket_class()
         s = SimSocket(self)
         s.local_port = 50000 + len(self.sockets)
         self.sockets.append(s)
@@ -255,8 +263,17 @@ class SocketModule:
         self.timeout = TimeoutError
         self.error = OSError
 
-    def socket(self, *a, **k):
-        return self._net.new_socket()
+        # `socket.socket` is a class in the real module: code may test `type(s) is socket.socket`
+        # or subclass it.  A per-run subclass of SimSocket bound to this network plays that part.
+        class socket(SimSocket):  # noqa: N801
+            def __init__(self_, *a, **k):
+                SimSocket.__init__(self_, net)
+                self_.local_port = 50000 + len(net.sockets)
+                net.sockets.append(self_)
+
+        socket.__qualname__ = "socket"
+        self.socket = socket
+        net.socket_class = socket
 
     def create_connection(self, address, timeout=None, source_address=None, **k):
         s = self._net.new_socket()
